@@ -336,6 +336,21 @@ pub fn verify<S: MlDsa>(seed: u64, nacc: usize, nrand: usize, stress: bool, out:
             emit_verify::<S>(out, &format!("2 forged t1=0, z[{}][{}] = {}", j, n, name), &f.pk, &mp, &f.sig, &[], "pure", true);
         }
     }
+    // family 2z: t1 = 0 forgeries whose response vector has all-zero polynomials (first one zero; only the last one
+    // non-zero): FIPS-valid, and exactly the inputs on which a product routine that special-cases zero columns goes wrong
+    {
+        let mut pats: Vec<Vec<bool>> = vec![(0..S::L).map(|x| x == 0).collect()];
+        if nacc > 2 { pats.push((0..S::L).map(|x| x != S::L - 1).collect()); for j in 1..S::L - 1 { pats.push((0..S::L).map(|x| x == j).collect()); } }
+        for pat in pats {
+            let mut z = rand_z::<S>(&mut p, edge - 1);
+            for (j, zero) in pat.iter().enumerate() { if *zero { z[j] = [0i32; 256]; } }
+            let h = rand_h::<S>(&mut p, 2);
+            k += 1;
+            let mp = msg_of(&mut p, k as u64);
+            let f = forge::<S>(&rho, &z, &h, &mp);
+            emit_verify::<S>(out, &format!("2z forged t1=0, zero polynomials in z at {:?} (accept)", pat.iter().enumerate().filter(|(_, z)| **z).map(|(j, _)| j).collect::<Vec<_>>()), &f.pk, &mp, &f.sig, &[], "pure", true);
+        }
+    }
     // family 3 on a forged base with hint weight exactly omega (accept) and its malformations (reject)
     {
         let z = rand_z::<S>(&mut p, edge - 1);
